@@ -243,14 +243,16 @@ PROPS = {
     "C11": dict(level="other", contracts=["numpoly.isconstant", "numpoly.tonumpy", "numpoly.absolute", "numpoly.ceil", "numpoly.floor",
                                           "numpoly.rint", "numpoly.around", "numpoly.true_divide", "numpoly.floor_divide",
                                           "numpoly.remainder", "numpoly.divmod", "numpoly.any", "numpoly.all", "numpoly.count_nonzero",
-                                          "numpoly.nonzero", "numpoly.logical_and", "numpoly.logical_or"],
+                                          "numpoly.nonzero", "numpoly.logical_and", "numpoly.logical_or", "numpoly.isclose", "numpoly.allclose"],
                 explanation="isconstant/tonumpy (on which every 'constant' clause rests) are proved. The numeric division family is "
                 "proved from its source: true_divide/floor_divide raise FeatureNotSupported exactly for a non-constant divisor and "
                 "otherwise fill EVERY coefficient column with numpy's quotient by the divisor's value (loop invariant, definedness); "
                 "remainder/divmod raise exactly when an operand is not constant and otherwise return polynomial(numpy.f(x1.tonumpy(), "
                 "x2.tonumpy(), where=...)). any/all/count_nonzero/nonzero/logical_and/logical_or are proved to apply the numpy "
                 "namesake to the non-zero mask of each operand (mask[i] <=> element i is not the zero polynomial; for constants: "
-                "numpy's truth value) with every parameter forwarded. absolute/ceil/floor/rint/around go through simple_dispatch. "
+                "numpy's truth value) with every parameter forwarded. isclose/allclose are proved to apply numpy's closeness test to every coefficient of "
+                "the aligned operands, `a` against the reference `b` (the test is not symmetric), with rtol/atol/equal_nan forwarded "
+                "(loop invariants; allclose's early return). absolute/ceil/floor/rint/around go through simple_dispatch. "
                 "The rest of the catalogue of mirrored functions on constant arrays (argmax/amax, isclose/allclose, reductions, "
                 "shape functions ...) is a bounded run-time check against numpy on the plain arrays (conc/checks_c11.py).",
                 trusted_base=COMMON_TRUSTED + ["numpy axioms: any over the stacked coefficients, ufuncs with out=, common_type"],
